@@ -399,6 +399,8 @@ def compare(dt, fl, itemsize):
     want = prims_of(dt)
     got = fl.prims
     amb = set(fl.flags)
+    if 'repeat count combined with an array shape' in amb:
+        return 'ambiguous', 'repeat count combined with an array shape'
     if fl.nonnative:
         if all(p[2] == 1 for p in got) and len(got) == len(want):
             amb.add('big-endian prefix on single-byte items')
